@@ -137,6 +137,9 @@ def rate_one_check(quick=True):
             # "... is mutated by the FIRST such mutator": boundary registered first decides every int and float, the
             # mutators registered after it never get to see one
             jobs.append('P=%d seed=%d mut=boundary,bitflip,offbyone rate=1.0 min=60 max=200' % (P, sd))
+            # ... and "the first such mutator" is the first one that is APPLICABLE to the value: string / memo-index mutators
+            # registered ahead of boundary have nothing to say about ints and floats
+            jobs.append('P=%d seed=%d mut=stringlen,character,memoindex,boundary rate=1.0 min=60 max=200' % (P, sd))
         for h in ('', '00', '0503', 'a1b2c3d4e5f60718', '17' * 40):
             jobs.append('P=%d hex=%s mut=boundary rate=1.0 min=20 max=60' % (P, h))
     ints = {0, -1, 1, 2 ** 31 - 1, -2 ** 31}
@@ -335,7 +338,8 @@ def findings(job, line):
     mx = int(d['max']) if 'max' in d else 300
     errs += refcheck.check_all(o, P, unsafe=uns, ext=d.get('ext') == '1', buffer=d.get('buffer') == '1',
                                min_ops=mn, max_ops=mx)
-    if state is not None and not uns and not any(e.startswith(('C01', 'C04', 'C09')) and not e.startswith('C01 dis:') for e in errs):
+    # (a complaint about what STOP finds does not disturb the comparison: the reference run below ends BEFORE the STOP)
+    if state is not None and not uns and not any(e.startswith(('C01', 'C04', 'C09')) and not e.startswith(('C01 dis:', 'C01 STOP with stack')) for e in errs):
         # C17 (end state only; the per-step statement is the proof's business): the simulated machine the
         # generator is left with vs. the reference machine run on the returned bytes up to (not including) STOP
         ops, derr = refcheck.decode(o)
